@@ -161,6 +161,7 @@ def run_monitor(prop, pairs, workdir):
 
 def decide(prop, spec, tier, seed, t0, replay=None):
     os.makedirs(vlib.OUT, exist_ok=True)
+    src0 = vlib.file_hash(vlib.repo_files())   # the tree this decision is about
     violations = []      # (kind, replay_path, concrete: bool)
     known_hits = {}
     notes = []
@@ -263,7 +264,8 @@ def decide(prop, spec, tier, seed, t0, replay=None):
         if suite in REALTIME:
             suspects = sorted({k for (s_, k, *_r) in diffs if s_ == suite} | {k for (s_, k, *_r) in mon_fails if s_ == suite})
             flaky = []
-            for k in suspects[:12]:
+            # only a handful of isolated cases can be put down to load; a systematic failure is never retried away
+            for k in (suspects if len(suspects) <= 3 else []):
                 impl2, model2 = vlib.run_lines([cases[k]], os.path.join(vlib.BUILD, "retry"))
                 v2 = run_monitor(prop, [(cases[k], impl2[0])], os.path.join(vlib.BUILD, "retry"))[0] if spec.get("monitor") else "pass"
                 if impl2[0] == model2[0] and not (v2.startswith("fail") or v2.startswith("driver-error")):
@@ -279,6 +281,9 @@ def decide(prop, spec, tier, seed, t0, replay=None):
             if 0 <= k < n:
                 samples.append({"suite": suite, "case": cases[k][:600], "implementation": impl[k][:600], "model": model[k][:600]})
         log(f"suite {suite}: {n} cases, {len(d)} disagreements, {st.get('monitor', {})} in {time.time() - t1:.1f}s")
+    # the working tree must not have moved under the check: a verdict is about one tree
+    if vlib.file_hash(vlib.repo_files()) != src0:
+        raise vlib.SourceMoved()
     # 5. verdict
     def still_fails_mon(line):
         impl, _ = vlib.run_lines([line], os.path.join(vlib.BUILD, "shrink"))
@@ -349,6 +354,8 @@ def decide(prop, spec, tier, seed, t0, replay=None):
     }
     if notes:
         ev["coverage"]["notes"] = notes
+    if vlib.file_hash(vlib.repo_files()) != src0:
+        raise vlib.SourceMoved()
     vlib.write_evidence(prop, ev)
     if violations:
         for kind, rp, concrete in violations:
